@@ -11,6 +11,8 @@ checks = {
          "Shapes are enumerated by forking on symbolic shape variables; ordinates stay symbolic 64-bit patterns (NaN payloads, infinities, -0, denormals are all inside one path). Decoder outputs are checked against the same predicate in the C03-C07 checks.", "6.C01"),
  "C02": ("One inductive Push step from an ARBITRARY well-formed pre-state (multipolygon <=2|3 polygons x <=2 rings x <=2 coords, empty polygons as nil or empty rows; polygon/multilinestring <=3|4 parts; multipoint <=3|5 members incl. empty) with an arbitrary well-formed part: count+1, earlier part accessors bit-identical, new part equals pushed part, well-formedness re-established, Coords = Coords ++ [part]; wrong layout => ErrLayoutMismatch{Got,Want} and unchanged receiver; Reverse reverses each part only; Swap exchanges everything; GeometryCollection Push/SetLayout.",
          "Induction over histories: base case (constructors) + step from any well-formed state covers every finite Push history whose states stay inside the size bound.", "6.C02"),
+ "C03": ("wkb.Marshal / ewkb.Marshal compared BYTE FOR BYTE with an independent reference encoder written from the ISO WKB / PostGIS EWKB layouts (own byte extraction, own type-code arithmetic), then decoded back and compared (type, layout, ends/endss, every ordinate bit, SRID): every geometry tree within the bound - 6 basic types (<=2 parts x <=2|3 coords, empty rings/lines/polygons, empty points and empty multipoint members) and collections of <=2 members nested to depth 1|2 mixing layouts, empty collections with and without a fixed layout - x {NDR,XDR} x 4 layouts x strict/NaN empty-point mode x SRID any uint32 (symbolic; member SRIDs in thorough) x every float64 bit pattern. Streams: a writer that starts failing after k bytes for EVERY k reports that error and has written only a prefix; a reader that splits the bytes (first 5 calls each 1, 2 or all requested bytes, then 1 or all) yields the same geometries one after the other and ends exactly at the end. Hex = lower-case hex of the binary form and decodes back (concrete ordinate patterns); every typed sql wrapper: Value() = NDR encoding, Scan accepts exactly its own type, non-[]byte source is an error; Layout(5..6)/NoLayout => ErrUnsupportedLayout.",
+         "Carve-outs of the property are assumptions of the harness (all-canonical-NaN point = empty point; layout-less empty collection decodes with the layout of its type code). Trees wider/deeper than the bound and other reader split patterns are outside the claim.", "6.C03"),
  "C04": ("wkb.Unmarshal (strict and NaN empty-point mode) and ewkb.Unmarshal on EVERY byte string of symbolic length <=18|30 with symbolic per-level limits MaxGeometryElements[1..3] in 0..3: no panic site reachable; every make() in the decoders has an element count bounded by a linear function of the configured limits (a forged 32-bit count can never reach an allocation: it is rejected with ErrGeometryTooLarge{Level,N,Limit} first); every successful result is well formed, respects every limit, re-encodes, and decode(encode(g)) equals g.",
          "The type word, counts, byte order flag and all ordinates are symbolic bytes; the decoder's own switches split the space. Inputs longer than the bound and total heap accounting are outside the claim; the limits-disabled carve-out of the property is not exercised (limits always enabled).", "6.C04"),
  "C08": ("Bounds()/Extend/GeometryCollection.Bounds/Overlaps/OverlapsPoint/SetCoords/Polygon for every non-NaN float64 (order-code domain K: exact for comparison, min, max, +-Inf, +-0): per-dimension containment and attainment, empty <=> no coordinates, Extend order independence and Z-with-Z/M-with-M over <=2|3 geometries of mixed XY/XYZ/XYM/XYZM, nested collections.",
